@@ -456,6 +456,30 @@ class Problem:
         return float(np.random.randn())
 
     def fun(self, x):
+        """the user's target; spec['ret_spelling'] selects another VALID spelling of the returned value"""
+        r = self._fun_float(x)
+        sp = self.spec.get("ret_spelling")
+        if not sp:
+            return r
+
+        def conv(v):
+            if sp == "np64":
+                return np.float64(v)
+            if sp == "np32":
+                return np.float32(v)
+            if sp == "int":
+                return int(np.round(v * 16))  # an integer-valued target (counts)
+            if sp == "npint":
+                return np.int64(np.round(v * 16))
+            if sp == "0d":
+                return np.array(v)
+            if sp == "arr1":
+                return np.array([v])
+            raise ValueError(sp)
+
+        return (conv(r[0]), r[1]) if isinstance(r, tuple) else conv(r)
+
+    def _fun_float(self, x):
         v = self.clean(x)
         m = self.mode
         if m == "det":
@@ -487,10 +511,20 @@ class Problem:
                 return np.asarray(v).copy()
             if spelling == "list":
                 return [float(t) for t in v]
+            if spelling == "x0f32":
+                return np.atleast_2d(v).copy()
             raise ValueError(spelling)
 
+        x0a = sp(self.x0)
+        if spelling == "x0f32" and self.x0 is not None:
+            # the start as a float32 array (what a float32 pipeline hands over); rounded TOWARDS the box centre so that the
+            # float32 value is still inside the bounds
+            x32 = np.asarray(self.x0, np.float32)
+            ctr = 0.5 * (np.where(np.isfinite(self.lb), self.lb, self.plb) + np.where(np.isfinite(self.ub), self.ub, self.pub))
+            x32 = np.where(x32.astype(float) > self.x0, np.where(self.x0 > ctr, np.nextafter(x32, np.float32(-np.inf)), x32), np.where(self.x0 < ctr, np.nextafter(x32, np.float32(np.inf)), x32)).astype(np.float32)
+            x0a = np.atleast_2d(x32)
         return dict(
-            x0=sp(self.x0),
+            x0=x0a,
             lower_bounds=sp(self.lb),
             upper_bounds=sp(self.ub),
             plausible_lower_bounds=sp(self.plb),
